@@ -72,6 +72,10 @@ def rand_string(rng):
 
 
 def draw_fmt(rng):
+    return c01.with_locale(rng, _draw_fmt(rng))
+
+
+def _draw_fmt(rng):
     r = rng.random()
     if r < 0.35:
         return {"kind": "black"}
